@@ -7,7 +7,10 @@ Specification : specs/Call.tla — a call is (fn, args, mem, errno); ConvertArg 
                 really use (generated _cffi_to_c_iN code / convert_from_object read-back).
 Design level  : MC_Call — both algorithms equal the rule for every integer of a window and all
                 64-bit boundaries at Base 4, every integer type, plus the non-integer value
-                classes; three broken variants must be rejected.
+                classes; three broken variants must be rejected.  CallXbuf — the exchange
+                buffer of cdata_call (fb_build offsets, pointer array, ffi_arg-sized result
+                slot) byte by byte for every signature of <= 2 (3) parameters over the
+                size/alignment classes; two broken variants must be rejected.
 Binding       : CallGen — TLC enumerates signature classes x argument classes and predicts each
                 class's conversion outcome from ConvertArg; the replayer generates one C
                 function per sampled signature and one module exposing it on all four paths
@@ -48,6 +51,16 @@ QUOTA = {"sel": (26, 260), "sum": (8, 60), "wr": (5, 14), "rdi": (5, 13), "bump"
          "smake": (4, 11), "sget": (5, 33), "vsum": (12, 100)}
 
 
+XB_CFG = """SPECIFICATION Spec
+CONSTANTS MaxN = %d
+  Variant = "%s"
+INVARIANT InBounds
+INVARIANT Aligned
+INVARIANT ArgsIntact
+INVARIANT ResultIntact
+CHECK_DEADLOCK FALSE
+"""
+XB_VARIANTS = (("off0_zero", "ArgsIntact"), ("size_short", "InBounds"))
 VARIANTS = (("api_uge", "ApiIsRule"), ("ffi_zeroext", "FfiIsRule"), ("bool_range", "FfiIsRule"))
 
 
@@ -56,23 +69,36 @@ def design_level(ctx):
     TLC runs; returns (signatures, class table, variadic class table)."""
     q = ctx.quick
     win, edge = (140, 3) if q else (700, 12)
-    with ThreadPoolExecutor(max_workers=5) as ex:
+    with ThreadPoolExecutor(max_workers=8) as ex:
+        fxb = ex.submit(core.tlc, "CallXbuf", cfg_text=XB_CFG % (2 if q else 3, "faithful"), workers=2 if q else 6,
+                        timeout=1500)
+        fxv = [ex.submit(core.tlc, "CallXbuf", cfg_text=XB_CFG % (2, v), workers=1, timeout=600, env=R.LIGHT_JVM)
+               for v, _inv in XB_VARIANTS]
         fmc = ex.submit(core.tlc, "MC_Call", cfg_text=MC_CFG % (win, edge, "faithful"), workers=4 if q else 8,
-                        coverage=True, timeout=1200)
-        fvs = [ex.submit(core.tlc, "MC_Call", cfg_text=MC_CFG % (20, 1, v), workers=1, timeout=600)
+                        coverage=not q, timeout=1200)
+        fvs = [ex.submit(core.tlc, "MC_Call", cfg_text=MC_CFG % (20, 1, v), workers=1, timeout=600, env=R.LIGHT_JVM)
                for v, _inv in VARIANTS]
         fgen = ex.submit(R.run_gen, 2 if q else 3, 9 if q else 12)
         r = fmc.result()
         ctx.add_tlc("MC_Call(Base=4,window=%d)" % win, r)
         cov = r.coverage()
         for a in ("Pick", "Convert"):
-            if cov.get(a, (0, 0))[1] == 0:
+            if not q and cov.get(a, (0, 0))[1] == 0:
                 raise core.MachineryError("MC_Call: action %s never taken" % a)
+        if r.depth != 3:       # start -> arg -> done: both actions were taken
+            raise core.MachineryError("MC_Call: unexpected depth %d" % r.depth)
         for (v, inv), f in zip(VARIANTS, fvs):
             r = f.result()
             ctx.add_tlc("sanity:" + v, r, require_ok=False, count_states=False)
             if r.ok or inv not in r.invariant_violated:
                 raise core.MachineryError("broken variant %s of the conversion model was not rejected by TLC (%s)" % (
+                    v, r.invariant_violated))
+        ctx.add_tlc("CallXbuf(MaxN=%d)" % (2 if q else 3), fxb.result())
+        for (v, inv), f in zip(XB_VARIANTS, fxv):
+            r = f.result()
+            ctx.add_tlc("sanity:xbuf_" + v, r, require_ok=False, count_states=False)
+            if r.ok or inv not in r.invariant_violated:
+                raise core.MachineryError("broken variant %s of the exchange-buffer model was not rejected (%s)" % (
                     v, r.invariant_violated))
         return R.parse_space(ctx, *fgen.result())
 
